@@ -191,6 +191,7 @@ type c12Payload struct {
 	Want     string      `json:"single_worker_outcome"`
 	Got      string      `json:"outcome"`
 	Loop     bool        `json:"loop_points_on"` // whether loop iterations were scheduling points in the recorded execution
+	Free     bool        `json:"free_running,omitempty"` // family builtin-calls: real threads, no choice vector
 }
 
 func c12Signature(name, want, got string) string {
@@ -230,6 +231,25 @@ func c12Run(c *core.Ctx) {
 		gox.EvalPoints = false
 		c12Pass(c, 2, 2, 2, " (coarse points, 2 decisions)")
 	}
+	gox.EvalPoints, gox.LoopPoints = false, false
+	// family builtin-calls: every built-in / aggregate / analytic function over a table split over real threads
+	runs := 3
+	if c.Thorough() {
+		runs = 12
+	}
+	goxFnFamily(c, runs, func(call goxFnCall, sc goxScenario, want string, got []string) {
+		fn := strings.SplitN(strings.TrimPrefix(call.Name, "fn:"), "/", 2)[0]
+		if goxFnNondeterministic[fn] {
+			return
+		}
+		for _, g := range got {
+			if g != want {
+				c.Violate(c12Signature("builtin-calls:"+strings.SplitN(call.Name, "/", 2)[0], want, g), fmt.Sprintf("%q over %d rows with 4 workers on real threads: %s", call.SQL, goxFnRows, goxFirstDiff(want, g)),
+					c12Payload{Scenario: sc, Free: true})
+				return
+			}
+		}
+	}, nil)
 }
 
 func c12Pass(c *core.Ctx, maxP, maxD, maxS int, tag string) {
@@ -243,10 +263,7 @@ func c12Pass(c *core.Ctx, maxP, maxD, maxS int, tag string) {
 			continue
 		}
 		k++
-		// quick: one scenario per worker; thorough: every worker takes its share of every scenario's schedule tree
-		if !c.Thorough() && !c.Mine(int64(k)) {
-			continue
-		}
+		// every worker takes its share of every scenario's schedule tree (the subtrees below the all-default execution)
 		if only := os.Getenv("VERIF_C12_ONLY"); only != "" && only != sc.Name {
 			continue
 		}
@@ -254,9 +271,7 @@ func c12Pass(c *core.Ctx, maxP, maxD, maxS int, tag string) {
 		want, _ := goxRunOnce(dir, sc, 1, false, nil)
 		outcomes := map[string]int{}
 		e := &gox.Explorer{MaxPreempt: maxP, MaxMapDev: maxD, MaxSwitch: maxS, Stop: c.Expired}
-		if c.Thorough() {
-			e.Shard, e.NShards = c.Shard, c.N
-		}
+		e.Shard, e.NShards = c.Shard, c.N
 		var got string
 		nontrivial := int64(0)
 		body := func() {}
@@ -293,15 +308,11 @@ func c12Pass(c *core.Ctx, maxP, maxD, maxS int, tag string) {
 			sites = append(sites, s)
 			c.Observe("map_iteration_sites_reached", s)
 		}
-		if c.Thorough() {
-			// the schedule tree of one scenario is spread over the workers: per-scenario totals are counters
-			c.Observe("scenarios", sc.Name)
-			c.Add("executions["+sc.Name+"]"+tag, int64(e.Executions))
-			for o := range outcomes {
-				c.Observe("outcomes["+sc.Name+"]", fmt.Sprintf("%x", h64s(o)))
-			}
-		} else {
-			c.Observe("scenarios", fmt.Sprintf("%s: %d executions, %d tasks max, %d choice points max, %d distinct outcomes", sc.Name, e.Executions, e.MaxTasks, e.MaxPoints, len(outcomes)))
+		// the schedule tree of one scenario is spread over the workers: per-scenario totals are counters
+		c.Observe("scenarios", sc.Name)
+		c.Add("executions["+sc.Name+"]"+tag, int64(e.Executions))
+		for o := range outcomes {
+			c.Observe("outcomes["+sc.Name+"]", fmt.Sprintf("%x", h64s(o)))
 		}
 		if e.Capped {
 			c.Incomplete("scenario " + sc.Name + ": time budget reached before all schedules within the bound were run")
@@ -333,6 +344,18 @@ func c12Replay(c *core.Ctx, payload json.RawMessage) {
 	defer func() { query.GetGoroutineManager().MinimumRequiredPerCore = prev }()
 	dir := core.Scratch("c12")
 	want, _ := goxRunOnce(dir, p.Scenario, 1, false, nil)
+	if p.Free {
+		for i := 0; i < 20; i++ {
+			got, _ := goxRunOnce(dir, p.Scenario, 4, false, nil)
+			if got != want {
+				fmt.Printf("free-running run %d differs from the single-worker run\n", i+1)
+				c.Violate(c12Signature(p.Scenario.Name, want, got), fmt.Sprintf("scenario %s: %s", p.Scenario.Name, goxFirstDiff(want, got)), p)
+				return
+			}
+		}
+		fmt.Println("20 free-running runs equal to the single-worker run")
+		return
+	}
 	for i := 0; i < 3; i++ {
 		got, ex := goxRunOnce(dir, p.Scenario, p.Scenario.CPU, true, p.Choices)
 		fmt.Printf("replay %d: %d choice points, outcome equal to the single-worker run: %v\n", i+1, len(ex.Points), got == want)
